@@ -20,15 +20,14 @@ import (
 // active-health-check condition (clear = healthy, the default of a new host;
 // set = already failed, e.g. by an earlier checker of the same address), an
 // unrelated condition (outlier ejection) clear or set, and EVERY result
-// sequence over {success, failure, timeout} of length L (quick 8, thorough
-// 10), the real sessionChecker of a real healthChecker (scripted session
+// sequence over {success, failure, timeout} of length 1..L (quick 8, thorough
+// 10; ascending length), the real sessionChecker of a real healthChecker (scripted session
 // factory, two registered callbacks: one through AddHostCheckCompleteCb, one
 // through the common-callback registry named in the config) is driven by
 // calling its handlers directly — HandleSuccess, HandleFailure(FailureActive),
 // and for a timeout what the Start loop does: Session.OnTimeout then
-// HandleFailure(FailureNetwork). No goroutine or timer is started. The
-// comparison is made after EVERY step, so every sequence of length <= L is
-// covered (it is a prefix of an enumerated one and the handlers are online).
+// HandleFailure(FailureNetwork). No goroutine or timer is started. Each
+// sequence runs on fresh objects; the comparison is made after every step.
 //
 // Reference automaton, from the statement: the host becomes unhealthy exactly
 // at the u-th consecutive failed check (failure or timeout), healthy again
@@ -110,38 +109,47 @@ func TestVerifC16Thresholds(t *testing.T) {
 	alpha := []byte("SFT")
 	complete := vreport.Run(p,
 		func(yield func(c16tCase) bool) {
-			seq := make([]byte, L)
-			var rec func(i int) bool
-			rec = func(i int) bool {
-				if i == L {
-					s := string(seq)
-					for u := uint32(1); u <= 3; u++ {
-						for h := uint32(1); h <= 3; h++ {
-							for _, iu := range []bool{false, true} {
-								for _, of := range []bool{false, true} {
-									if !yield(c16tCase{U: u, H: h, InitUnhealthy: iu, OtherFlag: of, Seq: s}) {
-										return false
-									}
-								}
-							}
-						}
-					}
-					return true
+			// ascending length, so that the first counterexample is a shortest one
+			for n := 1; n <= L; n++ {
+				if !c16tGen(n, alpha, yield) {
+					return
 				}
-				for _, a := range alpha {
-					seq[i] = a
-					if !rec(i + 1) {
-						return false
-					}
-				}
-				return true
 			}
-			rec(0)
 		},
 		c16tCheck)
 	p.End(complete,
-		fmt.Sprintf("thresholds (u,h) in {1,2,3}^2 x initial active-HC condition {clear,set} x unrelated condition {clear,set} x every result sequence over {success,failure,timeout} of length %d, compared after every step (= every sequence of length <= %d)", L, L),
-		"cartesian product; real healthChecker + sessionChecker driven through HandleSuccess/HandleFailure (timeout = Session.OnTimeout + HandleFailure(FailureNetwork)), no timers/goroutines; per step: host flag word and the changed/isHealthy arguments of both registered callbacks against the reference automaton; isHealthy of changed=false callbacks and the number of such callbacks are recorded, not compared; distinct = (u,h,initial state, reference trace of transitions); outcome = (step result, transition, callback arguments)")
+		fmt.Sprintf("thresholds (u,h) in {1,2,3}^2 x initial active-HC condition {clear,set} x unrelated condition {clear,set} x every result sequence over {success,failure,timeout} of length 1..%d, compared after every step", L),
+		"cartesian product; real healthChecker + sessionChecker driven through HandleSuccess/HandleFailure (timeout = Session.OnTimeout + HandleFailure(FailureNetwork)), no timers/goroutines; per step: host flag word and the changed/isHealthy arguments of both registered callbacks against the reference automaton; isHealthy of changed=false callbacks and the number of such callbacks are recorded, not compared; one evaluation = one (thresholds, initial state, sequence); distinct = (u,h,initial state, reference trace of transitions); outcome = (step result, transition, callback arguments)")
+}
+
+func c16tGen(L int, alpha []byte, yield func(c16tCase) bool) bool {
+	seq := make([]byte, L)
+	var rec func(i int) bool
+	rec = func(i int) bool {
+		if i == L {
+			s := string(seq)
+			for u := uint32(1); u <= 3; u++ {
+				for h := uint32(1); h <= 3; h++ {
+					for _, iu := range []bool{false, true} {
+						for _, of := range []bool{false, true} {
+							if !yield(c16tCase{U: u, H: h, InitUnhealthy: iu, OtherFlag: of, Seq: s}) {
+								return false
+							}
+						}
+					}
+				}
+			}
+			return true
+		}
+		for _, a := range alpha {
+			seq[i] = a
+			if !rec(i + 1) {
+				return false
+			}
+		}
+		return true
+	}
+	return rec(0)
 }
 
 func c16tCheck(p *vreport.Part, c c16tCase) {
@@ -181,7 +189,6 @@ func c16tCheck(p *vreport.Part, c c16tCase) {
 	unhealthy := c.InitUnhealthy
 	fs, ss := uint32(0), uint32(0)
 	trace := ""
-	p.EvalN(len(c.Seq) - 1)
 	for i := 0; i < len(c.Seq); i++ {
 		r := c.Seq[i]
 		direct, common = direct[:0], common[:0]
@@ -190,6 +197,8 @@ func c16tCheck(p *vreport.Part, c c16tCase) {
 			p.Violation("thresholds: handler panics", fmt.Sprintf("u=%d h=%d init_unhealthy=%v seq=%s step %d (%c): panic %s", c.U, c.H, c.InitUnhealthy, c.Seq, i+1, r, pan), c)
 			return
 		}
+		c := c
+		c.Seq = c.Seq[:i+1] // violations record the failing prefix only
 		transition := ""
 		kind := map[byte]string{'S': "success", 'F': "failure", 'T': "timeout"}[r]
 		if r == 'S' {
